@@ -212,8 +212,30 @@ class SysGen:
             self.stamp += 4
         types = ["lds", "rds", "cds", "eds"] + (["nds"] if istio else [])
         dead = False
+        held = 0          # > 0: the sender is held inside a Send for that many further operations
+        held_rt = None
         for i in range(n_ops):
             k = r.random()
+            if held > 0:
+                # inside a held Send: lookups and responses only, biased towards one type so that several requests
+                # of the same type (a subscription and its ACKs, two ACKs in a row) wait in the queue together
+                held -= 1
+                if k < 0.3:
+                    rt = held_rt if held_rt != "nds" and r.random() < 0.5 else r.choice(["lds", "rds", "cds", "eds"])
+                    pool = self.lis_names(istio) if rt == "lds" else self.NAMES[rt]
+                    case["ops"].append({"op": "lookup", "rt": rt, "name": r.choice(pool)})
+                else:
+                    rt = held_rt if r.random() < 0.7 else r.choice(types)
+                    op, tbl = self.resp(rt, istio, tbl)
+                    case["ops"].append(op)
+                if held == 0:
+                    case["ops"].append({"op": "unblock_send"})
+                continue
+            if not self.faults and i + 3 < n_ops and r.random() < 0.04:
+                case["ops"].append({"op": "block_send"})
+                held = r.choice([2, 2, 3, 4, 5])
+                held_rt = r.choice(types)
+                continue
             if k < 0.4:
                 rt = r.choice(["lds", "rds", "cds", "eds"])
                 pool = self.lis_names(istio) if rt == "lds" else self.NAMES[rt]
@@ -246,6 +268,8 @@ class SysGen:
                         rt = r.choice(["rds", "cds", "eds"])
                         case["ops"].append({"op": "lookup", "rt": rt, "name": r.choice(self.NAMES[rt])})
                     break
+        if held > 0:
+            case["ops"].append({"op": "unblock_send"})
         return case
 
 
@@ -360,7 +384,7 @@ def describe(c, o):
 
 def shrink(c):
     ops = c["ops"]
-    if any(op["op"] in ("lookups", "burst_unblock", "block_send") for op in ops):
+    if any(op["op"] in ("lookups", "burst_unblock") for op in ops) or any(op.get("nowait") for op in ops):
         return      # burst scenarios are fixed, already minimal, and expensive to re-evaluate
     # drop suffixes first, then single ops
     for cut in (len(ops) // 2, len(ops) - 1):
